@@ -325,6 +325,12 @@ class Repo(object):
             ast.copy_location(inner, call)
             return self._resolve(f, inner, ty)
         if isinstance(fn, ast.Name):
+            # `dw = delayed(W)` bound once, then `dw(args)`
+            alias = self._delayed_alias(f, fn.id)
+            if alias is not None:
+                inner = ast.Call(func=alias, args=args, keywords=kws)
+                ast.copy_location(inner, call)
+                return self._resolve(f, inner, ty)
             nested = self.nested_funcs(f).get(fn.id)
             if nested is not None:
                 return nested, 'func', args, kws
@@ -356,6 +362,16 @@ class Repo(object):
                 subs = [s for s in subs if s is not None]
                 if subs:
                     return subs[0], 'method', args, kws
+        return None
+
+    def _delayed_alias(self, f, name):
+        vals = []
+        for n in ast.walk(f.node):
+            if isinstance(n, ast.Assign) and any(isinstance(t, ast.Name) and t.id == name for t in n.targets):
+                vals.append(n.value)
+        if len(vals) == 1 and isinstance(vals[0], ast.Call) and isinstance(vals[0].func, ast.Name) \
+                and vals[0].func.id == 'delayed' and len(vals[0].args) == 1:
+            return vals[0].args[0]
         return None
 
     def nested_funcs(self, f):
